@@ -70,12 +70,7 @@ Definition will_pop (q : wqos) (l : list (Z * Z)) (h : Z) : bool :=
   match wq_depth q, lookup h l with Some d, Some n => (n =? d) && (0 <? n) | _, _ => false end.
 Definition same_state (a b : wev) : bool :=
   wlist_eqb pair_eqb (we_snap a) (we_snap b) && (we_nch a =? we_nch b) && (we_seq a =? we_seq b).
-(* the same except that instance h was registered (with no samples) *)
-Definition same_but_registered (h : Z) (a b : wev) : bool :=
-  wlist_eqb pair_eqb (we_snap a ++ [(h, 0)]) (we_snap b) && (we_nch a =? we_nch b) && (we_seq a =? we_seq b).
-
-(* strict = false tolerates the recorded deviation (failed write registers the instance) *)
-Fixpoint w_walk (strict : bool) (q : wqos) (prev : wev) (tr : list (wop * wev)) : bool :=
+Fixpoint w_walk (q : wqos) (prev : wev) (tr : list (wop * wev)) : bool :=
   match tr with
   | [] => true
   | (o, e) :: t =>
@@ -84,8 +79,9 @@ Fixpoint w_walk (strict : bool) (q : wqos) (prev : wev) (tr : list (wop * wev)) 
        | WWrite h _ _ _ | WApp h _ _ _ =>
            let popped := match o with WApp _ _ _ _ => will_pop q (we_snap prev) h | _ => false end in
            if we_res e =? 1 then
-             (* refused: nothing stored, nothing removed, and a limit really is in the way *)
-             (same_state prev e || (negb strict && same_but_registered h prev e)) &&
+             (* refused: nothing stored (no sample, no instance record), nothing removed, and a
+                limit really is in the way *)
+             same_state prev e &&
              negb popped && must_reject q (we_snap prev) h
            else if we_res e =? 0 then
              (* accepted: exactly one new sequence number, recorded for h *)
@@ -97,18 +93,18 @@ Fixpoint w_walk (strict : bool) (q : wqos) (prev : wev) (tr : list (wop * wev)) 
              (we_nch e <=? we_nch prev + 1) &&
              (popped || negb (must_reject q (we_snap prev) h))
            else false
-       end) && w_walk strict q e t
+       end) && w_walk q e t
   end.
 Fixpoint wzip {A B} (a : list A) (b : list B) : list (A * B) :=
   match a, b with x :: a', y :: b' => (x, y) :: wzip a' b' | _, _ => [] end.
 Definition app_only (c : Wr_case) : bool := forallb app_op (wc_ops c).
 Definition depth_ok (q : wqos) : bool := match wq_depth q with Some d => 1 <=? d | None => true end.
-Definition w_oracle (strict : bool) (c : Wr_case) : bool :=
+Definition w_oracle (c : Wr_case) : bool :=
   let q := wc_q c in
-  w_walk strict q (mkWev 0 [] 0 0) (wzip (wc_ops c) (wc_evs c)) &&
+  w_walk q (mkWev 0 [] 0 0) (wzip (wc_ops c) (wc_evs c)) &&
   (Nat.eqb (length (wc_ops c)) (length (wc_evs c))) &&
   (* the limits are never exceeded when the writer is used through DataWriter::write *)
   (if app_only c && depth_ok q then forallb (fun e => snap_within q (we_snap e)) (wc_evs c) else true).
-Definition C19W_oracle_ok (c : Wr_case) : bool := w_oracle true c.
-(* known class 1: the only deviation is that a refused write left its instance registered *)
-Definition C19W_known (c : Wr_case) : N := if w_oracle false c then 1%N else 0%N.
+Definition C19W_oracle_ok (c : Wr_case) : bool := w_oracle c.
+(* no recorded deviation is left (C19-failed-write-registers-instance was fixed in 3010f06) *)
+Definition C19W_known (c : Wr_case) : N := 0%N.
